@@ -441,10 +441,10 @@ def handleUnused : List String → Option String
 `generate_name(s)` (or `Error` for `ERROR_TOKEN`). -/
 def handleTName : List String → Option String := names1 (fun s => terminalName s none none)
 
--- @handler augname handleAugName
-/-- `augname <names> <i>` → `generate_name(names, names[i])` as reached through the public
+-- @handler gname33 handleGName33
+/-- `gname33 <names> <i>` → `generate_name(names, names[i])` as reached through the public
 `augment_grammar` (non-terminal set `names`, start symbol `names[i]`). -/
-def handleAugName : List String → Option String
+def handleGName33 : List String → Option String
   | [ns, i] => do
     let ns ← decodeList ns
     let i ← i.toNat?
